@@ -114,6 +114,12 @@ func BuildLockWorld(p *Program) *LockWorld {
 					hasStaticCaller[f] = true
 				}
 			}
+			// a method used as a method value is entered through the closure-argument rules below
+			if mc, ok := in.(*ssa.MakeClosure); ok {
+				if f := closureFn(mc); f != nil && f != mc.Fn.(*ssa.Function) {
+					hasStaticCaller[f] = true
+				}
+			}
 		})
 	}
 
@@ -298,7 +304,22 @@ func ClosureFn(v ssa.Value) *ssa.Function { return closureFn(v) }
 func closureFn(v ssa.Value) *ssa.Function {
 	switch x := v.(type) {
 	case *ssa.MakeClosure:
-		return x.Fn.(*ssa.Function)
+		f := x.Fn.(*ssa.Function)
+		// a method value (`r.stored`): the body that runs is the method
+		if strings.HasPrefix(f.Synthetic, "bound method wrapper") {
+			var target *ssa.Function
+			Instrs(f, func(in ssa.Instruction) {
+				if call, ok := in.(ssa.CallInstruction); ok {
+					if t := call.Common().StaticCallee(); t != nil && len(t.Blocks) > 0 {
+						target = t
+					}
+				}
+			})
+			if target != nil && !KnownFunc(FuncQName(target)) {
+				return target
+			}
+		}
+		return f
 	case *ssa.Function:
 		if x.Parent() != nil {
 			return x
